@@ -228,10 +228,14 @@ class H2Client:
                 st["data"] += ev.data
                 st["frames"].append(len(ev.data))
                 self.events.append(["data", ev.stream_id, len(ev.data)])
-                if self.auto_window and ev.flow_controlled_length:
+                if self.auto_window and self.auto_window != "connection" and ev.flow_controlled_length:
                     self.conn.acknowledge_received_data(ev.flow_controlled_length, ev.stream_id)
                 else:
                     self.unacked[ev.stream_id] = self.unacked.get(ev.stream_id, 0) + ev.flow_controlled_length
+                    if self.auto_window == "connection" and ev.flow_controlled_length:
+                        # credit goes back to the connection only (a client whose consumer of THIS stream is slow or busy
+                        # elsewhere): the stream's own window is opened by `grant()` alone
+                        self.conn.increment_flow_control_window(ev.flow_controlled_length)
             elif isinstance(ev, h2.events.StreamEnded):
                 self._st(ev.stream_id)["ended"] = True
                 self.events.append(["end", ev.stream_id])
@@ -247,6 +251,14 @@ class H2Client:
             elif isinstance(ev, h2.events.RemoteSettingsChanged):
                 for k, v in ev.changed_settings.items():
                     self.remote_settings[int(k)] = v.new_value
+
+    def grant(self, sid: int, n: int) -> bool:
+        """WINDOW_UPDATE for one stream (nothing for the connection); False when the stream is gone on this side"""
+        try:
+            self.conn.increment_flow_control_window(n, sid)
+            return True
+        except (h2.exceptions.ProtocolError, KeyError):      # closed / reset; h2 has forgotten a closed stream: KeyError
+            return False
 
     def summary(self) -> dict:
         out = {}
